@@ -250,6 +250,7 @@ where
         let now = Instant::now();
 
         let hash = self.inner.hasher.hash_one(key);
+        self.inner.keeper.remove(hash, key);
         self.inner.engine.delete(hash);
 
         self.inner.metrics.storage_delete.increase(1);
